@@ -240,7 +240,7 @@ func domChildHash(r *engine.Run, rule string) {
 		good := false
 		engine.Instrs(f, func(i2 ssa.Instruction) {
 			eq, ok := i2.(*ssa.Call)
-			if !ok || !extCalleeIs(eq, "bytes", "", "Equal") {
+			if !ok || !isBytesEq(eq) {
 				return
 			}
 			usesChild := false
@@ -265,7 +265,7 @@ func domChildHash(r *engine.Run, rule string) {
 	if g := wfn(r, rule, "Deserialize"); g != nil {
 		var eq *ssa.Call
 		engine.Instrs(g, func(in ssa.Instruction) {
-			if c, ok := in.(*ssa.Call); ok && extCalleeIs(c, "bytes", "", "Equal") {
+			if c, ok := in.(*ssa.Call); ok && isBytesEq(c) {
 				eq = c
 			}
 		})
@@ -479,5 +479,183 @@ func agreeDecode(r *engine.Run, rule string) {
 		})
 		r.Check(hashCopied && weightPut, rule, fn(g)+"|value reference", r.P.Pos(g.Pos()), "the persisted value reference is filled from the value's Hash() and Weight()",
 			fmt.Sprintf("the shared-prefix node no longer persists its value's hash (%v) or weight (%v): the loaded node points nowhere or weighs nothing", hashCopied, weightPut))
+	}
+}
+
+// ---- DOM-shortkey: a shared-prefix node never has an empty key ----------------------
+
+// domShortKey: every shortNode built by insert/delete gets a key that is
+// provably non-empty at the construction site: the walk's key parameter where
+// len(key) == 0 tested false, a prefix X[:k] where k == 0 tested false, a
+// suffix X[k:] where len(X) == k tested false, a freshly made slice of constant
+// positive length or of length n + c (c >= 1), or a composite literal with
+// elements. An empty-key node is a second encoding of "the value sits here":
+// another hash for the same content, and a later update adds the full weight.
+func domShortKey(r *engine.Run, rule string) {
+	n := 0
+	for _, name := range []string{"insert", "delete"} {
+		f := wfn(r, rule, name)
+		if f == nil {
+			continue
+		}
+		keyP := f.Params[3]
+		if name == "delete" {
+			keyP = f.Params[3]
+		}
+		o := ord{}
+		engine.Instrs(f, func(in ssa.Instruction) {
+			st, ok := in.(*ssa.Store)
+			if !ok {
+				return
+			}
+			fa, ok := st.Addr.(*ssa.FieldAddr)
+			if !ok || engine.FieldOf(fa).Name() != "key" {
+				return
+			}
+			if nm := namedOf(fa.X.Type()); nm == nil || nm.Obj().Name() != "shortNode" {
+				return
+			}
+			n++
+			facts, _ := engine.FactsOn(f, st.Block())
+			eqFalse := func(a ssa.Value, isB func(ssa.Value) bool) bool {
+				for _, ft := range facts {
+					if ft.Kind != "eq" || ft.Truth {
+						continue
+					}
+					if engine.ValKey(ft.A) == engine.ValKey(a) && isB(ft.B) || engine.ValKey(ft.B) == engine.ValKey(a) && isB(ft.A) {
+						return true
+					}
+				}
+				return false
+			}
+			isZeroV := func(v ssa.Value) bool { return isZero(v) }
+			lenOf := func(x ssa.Value) func(ssa.Value) bool {
+				return func(v ssa.Value) bool {
+					c, ok := v.(*ssa.Call)
+					if !ok {
+						return false
+					}
+					b, ok := c.Call.Value.(*ssa.Builtin)
+					return ok && b.Name() == "len" && engine.ValKey(c.Call.Args[0]) == engine.ValKey(x)
+				}
+			}
+			why := ""
+			v := st.Val
+			switch x := v.(type) {
+			case *ssa.Parameter:
+				if x == keyP {
+					// len(key) == 0 false
+					for _, ft := range facts {
+						if ft.Kind == "eq" && !ft.Truth && (lenOf(x)(ft.A) && isZero(ft.B) || lenOf(x)(ft.B) && isZero(ft.A)) {
+							why = "the walk's key where len(key) == 0 tested false"
+						}
+					}
+				}
+			case *ssa.Slice:
+				switch {
+				case x.High != nil && x.Low == nil && eqFalse(x.High, isZeroV):
+					why = "a prefix X[:k] where k == 0 tested false"
+				case x.Low != nil && x.High == nil && eqFalse(x.Low, lenOf(x.X)):
+					why = "a suffix X[k:] where len(X) == k tested false"
+				case x.Low == nil && x.High == nil:
+					if al, ok := x.X.(*ssa.Alloc); ok {
+						if arr, ok := al.Type().Underlying().(*types.Pointer).Elem().Underlying().(*types.Array); ok && arr.Len() >= 1 {
+							why = "a literal with elements"
+						}
+					}
+				}
+			case *ssa.MakeSlice:
+				if k, isK := intConst(x.Len); isK && k >= 1 {
+					why = "a made slice of positive constant length"
+				} else if b, ok := x.Len.(*ssa.BinOp); ok && b.Op == token.ADD {
+					lenOfKey := func(v ssa.Value) bool {
+						c, ok := v.(*ssa.Call)
+						if !ok {
+							return false
+						}
+						bi, ok := c.Call.Value.(*ssa.Builtin)
+						if !ok || bi.Name() != "len" {
+							return false
+						}
+						fld := fieldLoadOf(c.Call.Args[0])
+						return fld != nil && fld.Name() == "key"
+					}
+					if lenOfKey(b.X) || lenOfKey(b.Y) {
+						why = "a made slice at least as long as an existing node's key (non-empty by induction)"
+					} else if k, isK := intConst(b.Y); isK && k >= 1 {
+						why = "a made slice of length n + c, c >= 1"
+					} else if k, isK := intConst(b.X); isK && k >= 1 {
+						why = "a made slice of length c + n, c >= 1"
+					}
+				}
+			}
+			r.Check(why != "", rule, o.next(fn(f)+"|shortNode key"), r.P.Pos(st.Pos()), why,
+				"a shared-prefix node is built with a key that is not provably non-empty: with an empty key the value gets a second, non-canonical encoding (another root for the same content) and a later update of that key adds its full weight instead of the difference")
+		})
+	}
+	if n < 3 {
+		r.Anchor(rule, fmt.Errorf("unresolved anchor: %d shortNode constructions in insert/delete", n))
+	}
+}
+
+// ---- FRESH-resolved: a resolved reference is a private, freshly decoded node --------
+
+func freshResolved(r *engine.Run, rule string) {
+	f := wfn(r, rule, "resolveHashNode")
+	if f == nil {
+		return
+	}
+	var dec *ssa.Call
+	engine.Instrs(f, func(in ssa.Instruction) {
+		if c, ok := in.(*ssa.Call); ok && c.Call.StaticCallee() != nil && c.Call.StaticCallee().Name() == "DeserializeNode" {
+			dec = c
+		}
+	})
+	if dec == nil {
+		r.Anchor(rule, fmt.Errorf("unresolved anchor: decoding call in %s", fn(f)))
+		return
+	}
+	var node ssa.Value
+	for _, ref := range engine.Referrers(dec) {
+		if ex, ok := ref.(*ssa.Extract); ok && ex.Index == 0 {
+			node = ex
+		}
+	}
+	o := ord{}
+	n := 0
+	for _, ret := range engine.Returns(f) {
+		if len(ret.Results) != 2 {
+			continue
+		}
+		v := resultValue(ret, 0)
+		if nilConst(v) {
+			continue
+		}
+		n++
+		r.Check(node != nil && v == node, rule, o.next(fn(f)+"|returned node"), r.P.Pos(ret.Pos()), "the node returned is the one decoded by this call",
+			"resolveHashNode returns a node that was not decoded by this call (a cached object): insert, delete and commit change loaded nodes in place, so a shared object no longer is the node its hash names")
+	}
+	// the decoded node does not escape into the trie's own state
+	escapes := ""
+	if node != nil {
+		for _, ref := range engine.Referrers(node) {
+			switch x := ref.(type) {
+			case *ssa.Return, *ssa.Extract:
+			case *ssa.MakeInterface:
+				for _, r2 := range engine.Referrers(x) {
+					if _, isRet := r2.(*ssa.Return); !isRet {
+						escapes = r.P.Pos(r2.Pos())
+					}
+				}
+			default:
+				escapes = r.P.Pos(ref.Pos())
+			}
+		}
+	}
+	n++
+	r.Check(escapes == "", rule, fn(f)+"|no sharing", r.P.Pos(dec.Pos()), "the decoded node is only returned",
+		"the freshly decoded node is also kept somewhere else ("+escapes+"): the walk that receives it mutates it in place, and the kept copy goes stale under its hash")
+	if n < 2 {
+		r.Anchor(rule, fmt.Errorf("unresolved anchor: returns of resolveHashNode"))
 	}
 }
